@@ -1,6 +1,7 @@
 """C07 - every control completes and every ticket resolves."""
 from .. import jobtask, jobrules
 from ..report import Skip
+from ..facts import strip_generics
 
 
 def run(ctx):
@@ -12,7 +13,7 @@ def run(ctx):
                       "(grace timer, restart marker, wait-for-end list)")
     ctx.rule("R07.2", "whenever a holder gives up a flag (process-end handler taking the timer / restart marker / wait-for-end list, controls that end "
                       "the process) that flag is raised on every path; every write to a holder anywhere in the job task is of a modelled form")
-    ctx.rule("R07.3", "every normal exit of the job task raises the job-gone flag, and the main select! cannot panic with all branches disabled")
+    ctx.rule("R07.3", "every normal exit of the job task raises the job-gone flag, the main select! cannot panic with all branches disabled, and the exit-status conversion it runs on every process end has no failing unwrap")
     ctx.rule("R07.4", "Flag::raise stores then wakes; Flag::poll registers its waker and re-checks the flag before returning Pending")
     ctx.rule("R07.5", "no Clone future of the supervisor parks its waiter in a single-slot AtomicWaker shared between clones")
     ctx.rule("R07.7", "timer expiry re-injects the control through Timer::to_control (Stop / ContinueTryGracefulRestart with the timer's own flag) on both "
@@ -28,6 +29,19 @@ def run(ctx):
         pass
     try:
         jobrules.timer_summaries(ctx, "R07.7")
+    except Skip:
+        pass
+    try:
+        # the job task converts every exit status it sees (CommandState::wait): that conversion has no failing unwrap
+        facts = ctx.facts
+        fns = [("<ProcessEnd as From<ExitStatus>>::from", r"watchexec_events::process::ProcessEnd as core::convert::From<std::process::ExitStatus>>::from$"),
+               ("<Signal as From<i32>>::from", r"watchexec_signals::Signal as core::convert::From<i32>>::from$")]
+        for label, rx in fns:
+            f = ctx.anchor_one("R07.3", label, facts.fns_matching(rx))
+            bad = sorted({strip_generics(t.callee.def_ or repr(t.callee)) for g in [f] + facts.descendants(f) for _, t in g.calls()
+                          if t.callee.is_("Option::unwrap", "Option::expect", "Result::unwrap", "Result::expect", "Result::unwrap_err", "Result::expect_err")})
+            ctx.require(not bad, "R07.3", "status-conversion-total:" + label, "%s has no unwrap/expect that can fail for some exit status" % label, f.loc(f.line), detail=str(bad),
+                        fail="%s can panic inside the job task (%s): the task dies mid-control and its tickets are left to the drop path" % (label, bad))
     except Skip:
         pass
     for fn in (jobrules.wake_protocol, jobrules.multi_waiter, jobrules.ticket_shape, lambda c: jobrules.signal_child_rule(c, "R07.7"), lambda c: jobrules.callbox_table(c, "R07.7")):
